@@ -17,7 +17,7 @@ func checkC08(c *Ctx, r *Report) {
 		"the three mdat decoders derive LargeSize from the header length and StartPos from the start position; (S-SHAPE) DecodeBoxLazyMdat performs the same header decode, registry lookup, unknown-box fallback and decoder call as DecodeBox, " +
 		"differing only in the mdat arm, where it seeks only after a successful lazy decode; (G7) ReadData/CopyData reject a range end only when it is strictly greater than the data length (a range ending at the last byte is valid); " +
 		"(G7, generalised) in package mp4 every test that rejects a parameter-derived exclusive range end against the mdat data length, or a sample number against the sample count, is strict; (O-FLUSH) in File.CopySampleData a direct copy from the file to the writer is control-dependent on a test that the work buffer is absent, so buffered bytes of earlier chunks cannot be overtaken, and the buffer remainder is written after the loop; " +
-		"(DEP) File.AddChild's test that the previous mdat is empty depends on the lazily decoded size; (G-SEEK) the relative seek past a lazily decoded mdat payload is preceded by a test that the int64 distance is not negative; (O-SEEKFIRST) in MdatBox.ReadData, MdatBox.CopyData and File.CopySampleData every read from the caller's io.ReadSeeker is dominated by an absolute Seek on it in the same function (the box cannot know where the caller, or another user of the same ReadSeeker, left the position); (O-POS) MdatBox.StartPos, which the in-memory ReadData/CopyData subtract from an absolute file position while the lazy ones seek to it, is derived in DecodeFile/DecodeFileSR from the input position and not from the re-calculated sizes of the boxes in front of it; (O-POS) in DecodeFile no call that may reposition the input (findAndReadMfra) is reachable from the capture of lazy mode's reference position; (DEP) MdatBox.HeaderSize is decided by the LargeSize flag alone (the header form read and written), so PayloadAbsoluteOffset agrees in both modes; (L-SHORTREAD) every direct Read on an io.Reader/io.ReadSeeker in package mp4 is inside a loop (whole ranges are read with io.ReadFull/io.CopyN): a single Read may return fewer bytes than asked for; (O-FRESH) MdatBox.ReadData returns freshly allocated bytes or a part of Data, never a buffer kept in the box; (O-INDEP) in loops over chunks the first-chunk and last-chunk adjustments are independent, not exclusive arms (lazy copyMediaData and GetRangesForSampleInterval); (W-MDATHDR) no function computes the payload start as StartPos plus a constant. W-EE (layout engine, C03) covers that a lazy mdat encodes to exactly its header. Does not decide seek arithmetic values or refill correctness for all sizes."
+		"(DEP) File.AddChild's test that the previous mdat is empty depends on the lazily decoded size; (G-SEEK) the relative seek past a lazily decoded mdat payload is preceded by a test that the int64 distance is not negative; (O-SEEKFIRST) in MdatBox.ReadData, MdatBox.CopyData and File.CopySampleData every read from the caller's io.ReadSeeker is dominated by an absolute Seek on it in the same function (the box cannot know where the caller, or another user of the same ReadSeeker, left the position); (O-POS) MdatBox.StartPos, which the in-memory ReadData/CopyData subtract from an absolute file position while the lazy ones seek to it, is derived in DecodeFile/DecodeFileSR from the input position and not from the re-calculated sizes of the boxes in front of it; (O-MODE) a MdatBox method that adopts a caller's payload clears what IsLazy() decides on; (O-PAIR) in a function that adds a sample to a trun and accumulates the mdat's lazy data size no return is reachable from the AddSample call without the accumulation; (O-POS) in DecodeFile no call that may reposition the input (findAndReadMfra) is reachable from the capture of lazy mode's reference position; (DEP) MdatBox.HeaderSize is decided by the LargeSize flag alone (the header form read and written), so PayloadAbsoluteOffset agrees in both modes; (L-SHORTREAD) every direct Read on an io.Reader/io.ReadSeeker in package mp4 is inside a loop (whole ranges are read with io.ReadFull/io.CopyN): a single Read may return fewer bytes than asked for; (O-FRESH) MdatBox.ReadData returns freshly allocated bytes or a part of Data, never a buffer kept in the box; (O-INDEP) in loops over chunks the first-chunk and last-chunk adjustments are independent, not exclusive arms (lazy copyMediaData and GetRangesForSampleInterval); (W-MDATHDR) no function computes the payload start as StartPos plus a constant. W-EE (layout engine, C03) covers that a lazy mdat encodes to exactly its header. Does not decide seek arithmetic values or refill correctness for all sizes."
 	ruleMdatEmptyTest(c, r)
 	if n := ruleSeekForward(c, r); n < 1 {
 		r.Undecided("G-SEEK", "scope", "", "no relative seek by a size-derived distance found")
@@ -31,6 +31,12 @@ func checkC08(c *Ctx, r *Report) {
 	requireFixture(r, "L-SHORTREAD", "shortRead", func(fc *Ctx, s *Report) { ruleShortRead(fc, s, nil) })
 	ruleStartPosFromInput(c, r)
 	ruleMdatHeaderSizeFlag(c, r)
+	if n := ruleAdoptLeavesLazy(c, r); n < 1 {
+		r.Undecided("O-MODE", "scope", "", "no MdatBox method adopting a caller's payload found (SetData expected)")
+	}
+	if n := ruleLazySampleCounted(c, r); n < 2 {
+		r.Undecided("O-PAIR", "scope", "", "Fragment.AddSample / AddSampleToTrack (trun AddSample with lazy size accumulation) not found")
+	}
 	ruleCaptureAfterReposition(c, r)
 	ruleFreshResult(c, r)
 	ruleIndependentEnds(c, r, "O-INDEP", func(f *ssa.Function) bool {
